@@ -20,7 +20,10 @@ RULE = ("cases = DUT variant (standalone=True, address 0 | decoder + real token 
         "or 9..12 bytes, PID only, aborted), retries (SETUP, bad DATA0, SETUP, DATA0), foreign transactions after a "
         "failed SETUP, IN/OUT/PING/SOF tokens ours and foreign, bad-CRC5 tokens, handshakes, random PID bytes; dense "
         "and FS-like byte timing, packet separation down to 1 cycle (2 cycles after data-PID packets that cannot be a SETUP "
-        "payload, the handshake gap after 11-byte data packets); 'embedded' items put a well-formed packet INSIDE a "
+        "payload, the handshake gap after 11-byte data packets); 'runt-token' items = a token cut short (every token PID "
+        "OUT/IN/SETUP/SOF/PING x PID only | PID + ONE byte, then rx_active falls) directly before a valid SETUP "
+        "transaction, at back-to-back (HS), 4-gap and 40-cycle (FS) byte timing - every case contains one, the (PID, "
+        "length) shape swept over the case index so that each shape occurs in HS and FS cases of every tier; 'embedded' items put a well-formed packet INSIDE a "
         "longer one (over-long DATA after a SETUP token whose tail is data-PID + 8 bytes + their CRC16 at every offset "
         "around the 10-byte capture limit, with the outer CRC16 valid as well in half of them; valid packet + trailing "
         "bytes; token + data packet in one burst; SETUP token + trailing bytes; SETUP token inside a handshake/data burst; doubled PID), at "
@@ -63,7 +66,7 @@ def gen_cases(tier, rng):
         variant = "standalone" if k % 3 == 0 else "wired"
         out.append({"variant": variant, "hs": (k // 3) % 2, "hostile": 1 if k % 9 == 8 else 0,
                     "addr": 0 if variant == "standalone" else rng.choice([0, 1, 33, 77, 127, rng.below(128)]),
-                    "seed": rng.u64(), "k": k})
+                    "seed": rng.u64(), "k": k, "runt": (k // 2) % len(RUNT_SHAPES)})
     return out
 
 
@@ -208,13 +211,45 @@ def embedded_item(rng, addr):
     return out, shape
 
 
-def make_script(rng, addr):
-    """list of packets (bytes) with tags."""
+RUNT_PIDS = [U.PID_OUT, U.PID_IN, U.PID_SETUP, U.PID_SOF, U.PID_PING]
+RUNT_NAMES = {U.PID_OUT: "OUT", U.PID_IN: "IN", U.PID_SETUP: "SETUP", U.PID_SOF: "SOF", U.PID_PING: "PING"}
+RUNT_SHAPES = [(pid, n) for pid in RUNT_PIDS for n in (1, 2)]      # token PID alone | token PID + ONE byte
+
+
+def runt_item(rng, addr, shape=None):
+    """a token cut short (valid token PID, then 0 or 1 of its 2 payload bytes, then rx_active falls) DIRECTLY before a
+    valid SETUP transaction (SETUP token to us + DATA0 with 8 bytes and matching CRC16), which must be reported and
+    ACKed.  Byte timing back-to-back (HS), 4-gap or 40-cycle (FS) for all three packets."""
+    pid, n = shape if shape is not None else rng.choice(RUNT_SHAPES)
+    full = (U.sof_packet(rng.below(2048)) if pid == U.PID_SOF else
+            U.token_packet(pid, rng.choice([addr, addr, (addr + rng.range(1, 127)) % 128]), rng.below(16)))
+    if rng.chance(25):
+        full[1] = rng.below(256)
+    style = rng.choice(["hs", "hs", "fs4", "fs40", "fs40"])
+    out = [Pkt(full[:n]), Pkt(U.token_packet(U.PID_SETUP, addr, rng.choice([0, 0, 0, rng.below(16)]))),
+           Pkt(U.data_packet(U.PID_DATA0, setup_data(rng)))]
+    for q in out:
+        q.style = style
+    return out, "%s+%d:%s" % (RUNT_NAMES[pid], n - 1, style)
+
+
+def make_script(rng, addr, runt=None):
+    """list of packets (bytes) with tags.  `runt` = index into RUNT_SHAPES of a runt-token item every script of that
+    case contains at a random position (gen_cases sweeps it, so every shape occurs at HS and FS in every tier)."""
     pkts, tags = [], set()
-    for _ in range(rng.range(6, 16)):
+    n_items = rng.range(6, 16)
+    forced_at = rng.below(n_items) if runt is not None else -1
+    for item_no in range(n_items):
         what = rng.weighted([(34, "setup"), (10, "retry"), (7, "foreign-after-fail"), (7, "own-token-between"),
-                             (5, "foreign-setup"), (22, "garbage"), (15, "embedded")])
+                             (5, "foreign-setup"), (22, "garbage"), (15, "embedded"), (10, "runt-token")])
+        if item_no == forced_at:
+            what = "runt-token"
         tags.add("item:" + what)
+        if what == "runt-token":
+            ps, k = runt_item(rng, addr, RUNT_SHAPES[runt] if item_no == forced_at else None)
+            tags.add("runt:" + k)
+            pkts += ps
+            continue
         if what == "embedded":
             ps, k = embedded_item(rng, addr)
             tags.add("embedded:" + k)
@@ -421,7 +456,7 @@ def run_case(desc):
         stim = desc["stimulus"]
         tags.add("replay")
     else:
-        pkts, tags = make_script(rng, addr)
+        pkts, tags = make_script(rng, addr, desc.get("runt"))
         stim = render(rng, pkts, delay, hostile)
     from amaranth import Cat, Const
     rt = Cat(dec.packet.recipient, dec.packet.type, dec.packet.is_in_request)
